@@ -358,6 +358,11 @@ func (e *Element) Encode() []byte {
 
 // EncodeUncompressed returns the uncompressed byte encoding of the element.
 func (e *Element) EncodeUncompressed() []byte {
+	// The point at infinity has no affine coordinates: its SEC1 encoding is the single byte 0x00, as in Encode.
+	if e.IsIdentity() {
+		return []byte{encodingPrefixIdentity}
+	}
+
 	var out [elementLengthUncompressed]byte
 	return e.fillUncompressed(&out)
 }
